@@ -3,7 +3,7 @@
    statements, `exact` and Print Assumptions. *)
 From Coq Require Import QArith.
 From GV Require Import Vedirect.DrvSem Gen.DrvImpl Vedirect.DrvRefine Api.ApiSem Gen.ApiImpl Api.ApiRefine
-     Api.ApiRefineTables Api.ApiProps.
+     Api.ApiRefineTables Api.ApiProps Api.ApiValueFacts Api.ApiMapsRefine.
 Import ListNotations.
 Local Open Scope Z_scope.
 
